@@ -919,8 +919,51 @@ def _corpus(ctx):
                 ctx.count("corpus")
 
 
+def _large_candidate_sets(ctx, n):
+    """More than 10 000 candidates in one update (what scripts/postprocess.py asks for with --minimum_score: number_of_peaks
+    = int64 max).  Too large for the Lean model's driver; the separation / maximum / count clauses are evaluated directly."""
+    from scipy.spatial import cKDTree
+    rng = ctx.rng("large")
+    for it in range(n):
+        strategy = ["sort", "maxfilter", "sort", "fast"][it % 4]
+        cls = _classes()[strategy]
+        side = int(rng.integers(140, 170))
+        shape = (side, side)
+        md = int(rng.integers(2, 5))
+        npk = int(side * side)            # > 10 000: every voxel may be asked for
+        arr = rng.random(shape).astype(np.float32)
+        cfg = {"n": npk, "md": md, "mb": 0, "lo": None, "hi": None}
+        inp = {"kind": "large", "strategy": strategy, "shape": list(shape), "cfg": cfg, "seed_it": it}
+        try:
+            pc = cls(**_cfg_kwargs(cfg))
+            with warnings.catch_warnings():
+                warnings.simplefilter("ignore")
+                pc(arr.copy(), _rotmat(2, 0))
+            out = tuple(pc)
+        except Exception as e:  # noqa
+            ctx.spec("peak caller returns", inp, False, type(e).__name__ + ":" + str(e)[:80], key=f"{strategy}:raised")
+            continue
+        pos = np.asarray(out[0]).reshape(-1, 2).astype(np.int64)
+        sc = np.asarray(out[2]).reshape(-1)
+        pairs = cKDTree(pos).query_pairs(r=float(md) + 1e-9) if len(pos) > 1 else set()
+        bad = next(iter(pairs), None)
+        ctx.spec("no two reported peaks within min_distance", inp, not pairs,
+                 {"pairs": len(pairs), "example": None if bad is None else [pos[bad[0]].tolist(), pos[bad[1]].tolist()], "reported": int(len(pos))},
+                 key=f"{strategy}:separated")
+        inb = bool(len(pos) == 0 or (pos.min() >= 0 and (pos < np.array(shape)).all()))
+        ctx.spec("reported peaks lie inside the score map", inp, inb, key=f"{strategy}:in-bounds")
+        okv = bool(len(pos) and inb and np.allclose(sc, arr[tuple(pos.T)], atol=1e-6))
+        ctx.spec("reported scores are the score map's values at the reported positions", inp, okv, key=f"{strategy}:score-agrees")
+        am = np.unravel_index(int(np.argmax(arr)), shape)
+        ctx.spec("the highest-scoring translation is reported", inp, bool(len(pos) and (pos == np.array(am)).all(axis=1).any()),
+                 {"argmax": [int(x) for x in am]}, key=f"{strategy}:max-reported")
+        ctx.count("large-candidate-set:" + strategy)
+        ctx.distinct(("large", strategy, side, md))
+
+
 def run(ctx):
     _corpus(ctx)
+    _large_candidate_sets(ctx, ctx.budget(4, 16))
     _unit_tiles(ctx)
     _unit_greedy(ctx)
     _unit_topk(ctx)
